@@ -23,6 +23,7 @@ RULE = (
 COMPONENTS = _c16.COMPONENTS
 ASSUMPTIONS = ["'retry limit' L = at most L executions of a job, the first attempt included (RecoveryRequest.version starts at 1 and _update_request allows a retry while version < max_retries)",
                "for a job with several inputs whose transfers fail, only command executions are bounded (two transfer steps of one attempt can fail and be retried independently)"]
+INTERLEAVE_CASES = False   # the enumerated fault classes run first and completely; seeded runs use what is left of the budget
 TIERS = {"quick": {"runs": 600, "budget_s": 55}, "thorough": {"runs": 40000, "budget_s": 480}}
 SIM_KW = _c16.SIM_KW
 
